@@ -44,10 +44,11 @@ FAMILIES = [
 def generate(rng, tier):
     out = []
     for k, (rules, inp, top) in enumerate(FAMILIES):
-        for i in range(1, top + 1):
-            if tier == "quick" and i % 2 == 1 and i > 1:
-                continue
-            n = 8 * i
+        sizes = [8 * i for i in range(1, top + 1) if not (tier == "quick" and i % 2 == 1 and i > 1)]
+        # beyond the theorem's domain (no model comparison there): the implementation's own doubling bound and
+        # reproducibility up to 320-byte inputs for every family
+        sizes += [n for n in ((128, 160) if tier == "quick" else (96, 112, 128, 144, 160)) if n not in sizes]
+        for n in sizes:
             small = "(%s)" % G.case_text(rules, ('ref', 0), inp(n))
             big = "(%s)" % G.case_text(rules, ('ref', 0), inp(2 * n))
             out.append(("C17 %d %d %s %s" % (k, n, small, big), {"stream": "family-%d" % k}))
